@@ -11,6 +11,7 @@
 #include <sys/stat.h>
 #include <sys/syscall.h>
 #include <sys/time.h>
+#include <sys/wait.h>
 #include <tbox/base/log.h>
 #include <tbox/base/log_impl.h>
 #include <tbox/base/verif_hook.h>
@@ -42,9 +43,12 @@ static std::string got(int s, int th, int lvl, int lvlc, const std::string &mod,
            kv("len", (long long)len) + kb("trunc", trunc) + ",\"head\":" + head_of(text, len) + kb("pad", pad_ok(text, len)) + kb("ts_ok", ts_ok) + kv("fi", fi) + "}";
 }
 
+static thread_local int tl_th = 0;                 // logger number of this thread
+static void front(int s) { emit(J("front") + kv("s", s) + kv("th", tl_th) + "}"); }      // the call is handed to sink s (under the library's lock)
 // ---- sink 1: front-end recorder -------------------------------------------------------------------------------
 struct RecSink : tbox::log::Sink {
     void onLogFrontEnd(const LogContent *c) override {
+        front(1);
         long now = now_sec();
         emit(got(1, th_of(c->thread_id), c->level, CODES[c->level], c->module_id ? c->module_id : "(null)", c->func_name ? c->func_name : "(null)",
                  c->file_name ? c->file_name : "(null)", c->line, c->text_len, c->text_trunc, c->text_ptr ? c->text_ptr : "",
@@ -73,6 +77,7 @@ static void parse_line(int s, const std::string &line, int fi) {
 }
 // ---- sink 2: AsyncSink subclass with a tiny pipe ------------------------------------------------------------------
 struct RecAsync : tbox::log::AsyncSink {
+    void onLogFrontEnd(const LogContent *c) override { front(2); tbox::log::AsyncSink::onLogFrontEnd(c); }
     void endline() override { cache_.push_back('\n'); }
     void flush() override {
         size_t b = 0;
@@ -82,6 +87,9 @@ struct RecAsync : tbox::log::AsyncSink {
     }
 };
 // ---- sink 3: the real file sink ------------------------------------------------------------------------------------
+struct RecFile : tbox::log::AsyncFileSink {
+    void onLogFrontEnd(const LogContent *c) override { front(3); tbox::log::AsyncFileSink::onLogFrontEnd(c); }
+};
 static std::string g_dir;
 static int g_files_seen = 0;
 static std::map<std::string, size_t> g_files_done;       // path -> bytes already read back
@@ -120,6 +128,7 @@ static std::string make_text(int th, int seq, size_t len) {
 struct CallSpec { int lvl, mod, fn, file, line; size_t len; bool args; };
 static void logger(int th, std::vector<CallSpec> calls, int seq0) {
     { std::lock_guard<std::mutex> g(g_tidm); g_th_of_tid[syscall(SYS_gettid)] = th; }
+    tl_th = th;
     int seq = seq0;
     for (auto &c : calls) {
         ++seq;
@@ -129,7 +138,53 @@ static void logger(int th, std::vector<CallSpec> calls, int seq0) {
         if (c.args) LogPrintfFunc(MODS[c.mod], FUNCS[c.fn], FILES[c.file], c.line, c.lvl, 1, "%s", text.c_str());
         else LogPrintfFunc(MODS[c.mod], FUNCS[c.fn], FILES[c.file], c.line, c.lvl, 0, text.c_str());
         emit(J("ret") + kv("th", th) + "}");
+        call_start() = now_ms();          // progress: the watchdog on the join below fires when no log call has returned for its whole interval
     }
+}
+
+// The main thread logs as logger 5, forks, and the child logs as logger 5 too (after forgetting every thread id of the parent: a record
+// that carries the parent's id shows up as a record of nobody). Only the synchronous sink is enabled (the back-end threads of the
+// asynchronous ones do not exist in the child). The child's events travel through a pipe and are appended to the parent's trace.
+static void one_call(int th, int seq, const CallSpec &c) {
+    std::string text = make_text(th, seq, c.len);
+    emit(J("call") + kv("th", th) + kv("seq", seq) + kv("lvl", c.lvl) + ks("mod", MODS[c.mod]) + ks("func", FUNCS[c.fn]) + ks("file", BASES[c.file]) +
+         kv("line", c.line) + kv("len", (long long)c.len) + kb("args", c.args) + "}");
+    if (c.args) LogPrintfFunc(MODS[c.mod], FUNCS[c.fn], FILES[c.file], c.line, c.lvl, 1, "%s", text.c_str());
+    else LogPrintfFunc(MODS[c.mod], FUNCS[c.fn], FILES[c.file], c.line, c.lvl, 0, text.c_str());
+    emit(J("ret") + kv("th", th) + "}");
+}
+static void fork_and_log(vh::Rng &rng, int &seq, size_t mx) {
+    auto some_call = [&] { CallSpec c; c.lvl = (int)rng.range(0, 7); c.mod = (int)rng.below(3); c.fn = (int)rng.below(2); c.file = (int)rng.below(3);
+                           c.line = (int)rng.range(1, 9999); c.len = (size_t)rng.range(0, mx < 200 ? mx + 2 : 200); c.args = rng.chance(50); return c; };
+    { std::lock_guard<std::mutex> g(g_tidm); g_th_of_tid[syscall(SYS_gettid)] = 5; }
+    tl_th = 5;
+    int before = (int)rng.range(0, 2), inchild = (int)rng.range(1, 3);
+    for (int i = 0; i < before; ++i) one_call(5, ++seq, some_call());
+    std::vector<CallSpec> cc; for (int i = 0; i < inchild; ++i) cc.push_back(some_call());
+    int pfd[2]; if (pipe(pfd) != 0) return;
+    size_t base;
+    { std::lock_guard<std::mutex> g(evm()); base = events().size(); }
+    pid_t pid = fork();
+    if (pid == 0) {
+        close(pfd[0]);
+        g_th_of_tid.clear(); g_th_of_tid[syscall(SYS_gettid)] = 5;
+        int sq = seq;
+        for (auto &c : cc) one_call(5, ++sq, c);
+        std::string all;
+        for (size_t i = base; i < events().size(); ++i) all += events()[i].line + "\n";
+        size_t o = 0; while (o < all.size()) { ssize_t w = write(pfd[1], all.data() + o, all.size() - o); if (w <= 0) break; o += (size_t)w; }
+        _exit(0);
+    }
+    close(pfd[1]);
+    if (pid < 0) { close(pfd[0]); return; }
+    std::string all; char buf[4096]; ssize_t r;
+    while ((r = read(pfd[0], buf, sizeof buf)) > 0) all.append(buf, (size_t)r);
+    close(pfd[0]);
+    int st = 0; waitpid(pid, &st, 0);
+    size_t b = 0; int lines = 0;
+    for (size_t i = 0; i < all.size(); ++i) if (all[i] == '\n') { emit(all.substr(b, i - b)); b = i + 1; ++lines; }
+    if (!WIFEXITED(st) || WEXITSTATUS(st) != 0 || lines < 2 * inchild) emit(J("Fault") + ks("kind", "child") + ks("what", "the forked child did not finish its log calls") + "}");
+    seq += inchild;
 }
 
 static void run_execution(vh::Rng &rng, uint64_t seed, int xno) {
@@ -143,7 +198,7 @@ static void run_execution(vh::Rng &rng, uint64_t seed, int xno) {
         closedir(d);
     }
     { std::lock_guard<std::mutex> g(g_tidm); g_th_of_tid.clear(); }
-    RecSink s1; RecAsync s2; tbox::log::AsyncFileSink s3;
+    RecSink s1; RecAsync s2; RecFile s3;
     tbox::log::AsyncSink::Config pc;
     pc.buff_size = (size_t)rng.pick(std::vector<long long>{1, 7, (long long)sizeof(LogContent) - 1, (long long)sizeof(LogContent) + 1, 64, 4096});
     pc.buff_min_num = (size_t)rng.range(1, 2); pc.buff_max_num = pc.buff_min_num + (size_t)rng.range(0, 2); pc.interval = 1;
@@ -152,12 +207,12 @@ static void run_execution(vh::Rng &rng, uint64_t seed, int xno) {
     s3.setFileMaxSize((size_t)rng.pick(std::vector<long long>{1, 50, 300, 5000, 1 << 20}));
     bool en[4] = {false, false, false, false};
     tbox::log::Sink *sinks[4] = {nullptr, &s1, &s2, &s3};
-    int seqs[5] = {0, 0, 0, 0, 0};
+    int seqs[6] = {0, 0, 0, 0, 0, 0};
     int nphase = (int)rng.range(1, 3);
     for (int ph = 0; ph < nphase; ++ph) {
         // thresholds and maximum length
         // (100 KiB texts through a pipe of 1..64-byte buffers only cost time: one buffer hand-over per few bytes)
-        size_t mx = (size_t)rng.pick(pc.buff_size <= 64 ? std::vector<long long>{5, 20, 100, 2047, 2048, 2049, 5000} : std::vector<long long>{5, 20, 100, 2047, 2048, 2049, 5000, 102400});
+        size_t mx = (size_t)rng.pick(pc.buff_size <= 64 ? std::vector<long long>{5, 20, 100, 2047, 2048, 2049, 5000} : std::vector<long long>{5, 20, 100, 2047, 2048, 2049, 5000, 102400, 102401, 150000});
         LogSetMaxLength(mx);
         std::string cfg = J("config") + kv("max", (long long)mx) + ",\"sinks\":[";
         for (int s = 1; s <= 3; ++s) {
@@ -191,10 +246,11 @@ static void run_execution(vh::Rng &rng, uint64_t seed, int xno) {
         for (int s = 1; s <= 3; ++s) if (!en[s] && rng.chance(ph == 0 ? 85 : 60)) { sinks[s]->enable(); en[s] = true; emit(J("enabled") + kv("s", s) + "}"); }
         // loggers
         int nth = (int)rng.range(1, 4);
+        bool overlap = rng.chance(40);                  // some sinks will be disabled while the loggers are at work
         std::vector<std::thread> th;
         for (int t = 1; t <= nth; ++t) {
             std::vector<CallSpec> calls;
-            int n = (int)rng.range(3, 30);
+            int n = overlap ? (int)rng.range(20, 60) : (int)rng.range(3, 30);
             for (int i = 0; i < n; ++i) {
                 CallSpec c; c.lvl = (int)rng.range(-1, 8); c.mod = rng.chance(3) ? 3 : (int)rng.below(3); c.fn = (int)rng.below(2); c.file = (int)rng.below(3); c.line = (int)rng.range(1, 9999);
                 switch (rng.below(8)) {
@@ -206,20 +262,33 @@ static void run_execution(vh::Rng &rng, uint64_t seed, int xno) {
                     case 5: c.len = (size_t)rng.range(2046, 2050); break;
                     default: c.len = (size_t)rng.range(0, 600); break;
                 }
-                if (c.len > 110000) c.len = 110000;
+                if (c.len > 160000) c.len = 160000;
                 c.args = rng.chance(60);
                 calls.push_back(c);
             }
             th.emplace_back(logger, t, calls, seqs[t]); seqs[t] += n;
         }
-        for (auto &t : th) t.join();
-        // some sinks are disabled at the end of the phase: everything logged so far must be there when disable() returns
-        for (int s = 1; s <= 3; ++s) if (en[s] && (ph == nphase - 1 || rng.chance(40))) {
+        auto disable_sink = [&](int s) {
+            emit(J("disable_begin") + kv("s", s) + "}");
             {   CallGuard cg; sinks[s]->disable(); }
             en[s] = false;
             if (s == 3) read_back_files();
             emit(J("disabled") + kv("s", s) + "}");
+        };
+        // sometimes a sink is disabled while the loggers are still at work: whatever was handed to it must be there when disable() returns
+        if (overlap) {
+            std::this_thread::sleep_for(std::chrono::microseconds(rng.range(0, 400)));
+            for (int s = 1; s <= 3; ++s) if (en[s] && rng.chance(60)) disable_sink(s);
         }
+        {   CallGuard cg; for (auto &t : th) t.join(); }
+        // the process forks: the child's (only) thread is a thread of its own, its records carry its own id
+        if (rng.chance(25)) {
+            for (int s = 2; s <= 3; ++s) if (en[s]) disable_sink(s);
+            if (!en[1]) { sinks[1]->enable(); en[1] = true; emit(J("enabled") + kv("s", 1) + "}"); }
+            fork_and_log(rng, seqs[5], mx);
+        }
+        // some sinks are disabled at the end of the phase: everything logged so far must be there when disable() returns
+        for (int s = 1; s <= 3; ++s) if (en[s] && (ph == nphase - 1 || rng.chance(40))) disable_sink(s);
     }
     emit(J("end") + "}");
     flush_events(true);
